@@ -43,6 +43,11 @@ class CircuitProgram:
         t = norm(e)
         if isinstance(e, ast.Name) and e.id in loop_vars:
             return loop_vars[e.id]
+        if isinstance(e, ast.Name):
+            b = [n.value for n in ast.walk(self.fi.node) if isinstance(n, ast.Assign) and len(n.targets) == 1 and isinstance(n.targets[0], ast.Name) and n.targets[0].id == e.id]
+            if len(b) == 1:
+                # `q = circ.add_qubit(name="x")` returns the index of the qubit named x; `q = circ["x"]` looks it up
+                t = norm(b[0])
         if "_ret_phased" in t:
             return "phase"
         if "'_ret'" in t or '"_ret"' in t:
